@@ -220,7 +220,7 @@ class _ModeMixin:
 
     @classmethod
     def from_dict(cls, d):
-        return cls(**{k: v for k, v in d.items() if k in ("mode", "k", "two_way", "perm", "restricted")})
+        return cls(**{k: v for k, v in d.items() if k in ("mode", "k", "two_way", "perm", "restricted", "reversible")})
 
     def __repr__(self):
         return f"{type(self).__name__}({self.mode!r})"
@@ -428,9 +428,10 @@ class Swap(SymmetryStrategy):
 class Rot(_ModeMixin, DisjointUnionStrategy):
     """relabel the alphabet cyclically by k steps (a unary equivalence); may be declared one-way"""
 
-    def __init__(self, mode="", k=1, two_way=True, perm=None, restricted=False):
+    def __init__(self, mode="", k=1, two_way=True, perm=None, restricted=False, reversible=None):
         self.k = k
         self.two_way = two_way
+        self.reversible = reversible  # None: as two_way; True with two_way=False: a one-way rule that may still be counted backwards
         self.restricted = restricted  # True: does not apply to classes whose smallest pattern starts with the last letter; "only": applies only to those
         self.perm = perm  # e.g. "bac": a->b, b->a, c->c (overrides the rotation by k); only for alphabets of that size
         super().__init__(mode=mode)
@@ -475,10 +476,10 @@ class Rot(_ModeMixin, DisjointUnionStrategy):
         return self.two_way
 
     def is_reversible(self, comb_class):
-        return self.two_way
+        return self.two_way if self.reversible is None else self.reversible
 
     def formal_step(self):
-        return f"rot{self.k if self.perm is None else self.perm}{'' if self.two_way else ' one-way'}{' restricted=' + str(self.restricted) if self.restricted else ''} {self.mode}".strip()
+        return f"rot{self.k if self.perm is None else self.perm}{'' if self.two_way else ' one-way'}{' reversible' if self.reversible else ''}{' restricted=' + str(self.restricted) if self.restricted else ''} {self.mode}".strip()
 
     def forward_map(self, c, w, children=None):
         return (W(w.translate(self._t(c))),)
@@ -492,10 +493,11 @@ class Rot(_ModeMixin, DisjointUnionStrategy):
         d["two_way"] = self.two_way
         d["perm"] = self.perm
         d["restricted"] = self.restricted
+        d["reversible"] = self.reversible
         return d
 
     def __repr__(self):
-        return f"Rot({self.mode!r},{self.k},{self.two_way},{self.perm!r}{',restricted=' + str(self.restricted) if self.restricted else ''})"
+        return f"Rot({self.mode!r},{self.k},{self.two_way},{self.perm!r}{',restricted=' + str(self.restricted) if self.restricted else ''}{',reversible=' + str(self.reversible) if self.reversible is not None else ''})"
 
 
 class RotNE(Rot):
@@ -959,6 +961,8 @@ def make_pack(mode="", inferral=False, symmetry=False, iterative=False, factory=
         exp = [[Rot(mode, 1, False, None, True)], [Rot(mode, 1, True, None, "only")]] + exp
     elif rot == "ne":
         exp = [[Rot(mode, 1, False), RotNE(mode, 2, True)]] + exp
+    elif rot == "rev":  # a one-way relabelling that is nevertheless reversible (is_reversible and is_two_way disagree)
+        exp = [[Rot(mode, 1, False, reversible=True), Rot(mode, 2, True)]] + exp
     elif rot == "ow":  # the rotation and its inverse, both one-way: overlapping cycles of one-way rules
         exp = [[Rot(mode, 1, False), Rot(mode, 2, False)]] + exp
     elif rot == "perm":  # a rotation and a transposition of three letters: equivalence paths whose bijections do not commute
